@@ -12,7 +12,12 @@ from fsic.exceptions import NonConvergenceError, SolutionError
 
 
 def bits(x):
-    return struct.unpack('<Q', struct.pack('<d', float(x)))[0]
+    """IEEE-754 bit pattern of a double; every NaN is canonicalised (sign/payload of a NaN are not observable
+    through fsic and Lean's `Float.toBits` canonicalises too)."""
+    x = float(x)
+    if x != x:
+        return 0x7FF8000000000000
+    return struct.unpack('<Q', struct.pack('<d', x))[0]
 
 
 def unbits(b):
